@@ -28,7 +28,8 @@ SIGMA_C = ['a', '{', '}', ':', ';', '"', "'", '\\', '(', ')', '/', '*', ' ', '\n
 SIGMA_H = ['<', '>', '/', 'a', 'b', ' ', '=', '"', "'", '!', '-', '[', ']', '?', '{', '}', '\\', '*']      # `*`: attribute-name prefix (*ngIf, #ref)
 UNITS_H = ['<a', '</a>', '<a>', '<br>', '/>', '>', '<', ' b="', " c='", ' d={', '"', "'", '}', ' e', '=', 'x',
            '<script>', '</script>', '<style>', '<!--', '-->', '<![CDATA[', ']]>', '<?', '?>', ' ', '/',
-           '<script type=', ' *', ' #r', '{']            # the attribute the scanner itself reads (special elements are typed)
+           '<script type=', ' *', ' #r', '{',            # the attribute the scanner itself reads (special elements are typed)
+           '<A>', '</A>']                                # the same tag name in the other letter case (names are compared as written)
 
 # math
 TOKENS_E = ['1', '2', '0', '.5', '1.5', '+', '-', '*', '/', '\\', '(', ')', ' ', '()', '(1)', '(2+1)', '(-1)', '(-2+1)']      # groups that open with a sign
